@@ -40,7 +40,7 @@ func Atom(t *rapid.T) *ref.Pat {
 	case 0, 1, 2, 3:
 		p := &ref.Pat{K: "lit", R: rapid.SampledFrom(LitRunes).Draw(t, "r")}
 		if rapid.IntRange(0, 5).Draw(t, "spell") == 0 {
-			p.Spell = rapid.SampledFrom([]int{2, 4, 8}).Draw(t, "form")
+			p.Spell = rapid.SampledFrom([]int{2, 4, 8, 5, 6, 7}).Draw(t, "form")
 		}
 		return p
 	case 4:
@@ -59,7 +59,7 @@ func Atom(t *rapid.T) *ref.Pat {
 			case 2:
 				lo := rapid.SampledFrom([]rune{'a', 'b', '0', 'A', ' ', 'x', 0x7C, 0xE8}).Draw(t, "lo")
 				hi := lo + rune(rapid.IntRange(0, 5).Draw(t, "d"))
-				br.Items = append(br.Items, &ref.Pat{K: "rng", R: lo, R2: hi})
+				br.Items = append(br.Items, &ref.Pat{K: "rng", R: lo, R2: hi, Spell: rapid.SampledFrom([]int{0, 0, 0, 0, 4, 5, 6, 7, 8}).Draw(t, "rangeSpelling")})
 			case 3:
 				br.Items = append(br.Items, &ref.Pat{K: "cls", Name: rapid.SampledFrom(Classes).Draw(t, "c")})
 			default:
@@ -220,6 +220,15 @@ func SingleConstructs() []*ref.Pat {
 	}
 	for _, r := range []rune{0x41, 0x7F, 0x80, 0xE9, 0xFF, 0x100, 0xFFFF, 0x4E2D, 0x10000, 0x1F600, 0x10FFFF} {
 		out = append(out, &ref.Pat{K: "lit", R: r, Spell: 4}, &ref.Pat{K: "lit", R: r, Spell: 8})
+		for n := 5; n <= 7; n++ {
+			out = append(out, &ref.Pat{K: "lit", R: r, Spell: n})
+			// and as end point of a range inside a bracket group
+			lo, hi := r, r+3
+			if hi > 0x10FFFF {
+				lo, hi = r-3, r
+			}
+			out = append(out, &ref.Pat{K: "br", Items: []*ref.Pat{{K: "rng", R: lo, R2: hi, Spell: n}}})
+		}
 	}
 	// an escape followed by a hexadecimal digit (spelling disambiguation)
 	out = append(out, &ref.Pat{K: "cat", Subs: []*ref.Pat{{K: "lit", R: 0x2D, Spell: 2}, {K: "lit", R: '0'}, {K: "lit", R: 'A'}}})
